@@ -267,6 +267,9 @@ impl ServerAccountStorage for ServerFileStorage {
             folder_id,
         )
         .await?;
+        // Must load the commit tree so that the existing events
+        // are restored if the checkpoint verification fails
+        event_log.load_tree().await?;
         event_log.replace_all_events(diff).await?;
         let vault = FolderReducer::new()
             .reduce(&event_log)
